@@ -66,7 +66,7 @@ CHECKS = [
           "the C10/C11 mirrors which are tied to the code by transcript equality. Plus mass differential: ~32k (quick) near-valid strings per run through all three real "
           "parsers under catch_unwind and a watchdog, every error/warning span checked against is_char_boundary.",
   "design_ref": "DESIGN.md §5 C12, §5E",
-  "note": _TB + "span well-formedness of yacc/lex errors and warnings is checked by execution on every case, not proved; native stack depth is outside the model.",
+  "note": _TB + "span well-formedness of yacc errors/warnings/AST spans and of lex errors is proved for the repaired code (C12_yacc_error_spans_wellformed, C12_lex_error_spans_wellformed; action-span ends and pre-fix lex spans refuted); native stack depth is outside the model.",
   "technique": "Coq proof (header, yacc and lex parser mirrors total; header spans well-formed) + impl/mirror differential + panic/hang/bad-span oracle on mutated specifications"},
  {"id": "C15",
   "text": "Coq permutation theorems on mirrors whose hash-iteration orders are explicit parameters: Eco implicit-token numbering (pinned code "
